@@ -130,6 +130,16 @@ def item_filter(facts, it, loop, field_path):
                 tgt = loc_target(it, w.loc)
                 if tgt and tgt[0] == 1 and tuple(tgt[1]) == tuple(field_path) and tgt[2] == 'w' and versionless(w.val) == coll:
                     stored = True
+            if not stored and not a0.loc[1]:
+                # buffered in a local collection that is poured into the (previously emptied) field after the loop
+                lname = 'L%d' % a0.loc[0][1]
+                emptied = any(w.kind in ('take', 'replace') and loc_target(it, w.loc) and loc_target(it, w.loc)[:2] == (1, tuple(field_path))
+                              for w in it.muts.values())
+                for b3, c3 in it.calls.items():
+                    if emptied and b3 not in loop.blocks and call_name(c3.term) in ('extend', 'append') and len(c3.args) == 2 \
+                            and param_path(versionless(c3.args[0].val)) == (1, tuple(field_path)) and coll_local(c3.args[1].val) == lname \
+                            and Reach(it.facts, it.body, Evaluator(it.facts)).must_pass([b3]):
+                        stored = True
             if stored:
                 keep.append(bb)
                 keepvals.append([a.val for a in c.args[1:]])
